@@ -190,6 +190,22 @@ pub fn run(rec: &mut Rec, rng: &mut Rng, thorough: bool) {
             table_case_paths(rec, SERVER_IDS[0], prefix, &long_refs, &regs, &uris, None);
         }
     }
+    // route paths that themselves begin with the prefix string (or are the prefix): the key is ALWAYS prefix + path
+    {
+        let pp: [&str; 6] = ["/a/x", "/x", "/ab", "/a", "", "/a/a"];
+        let routes6: Vec<(u8, usize)> = (0..2u8).flat_map(|m| (0..pp.len()).map(move |p| (m, p))).collect();
+        let mut uris: Vec<Vec<u8>> = vec![];
+        for tail in ["/a", "/x", "/ab", "/a/x", "/a/a", "/a/ab", "/a/a/x", "/a/a/a", ""] {
+            uris.push(tail.as_bytes().to_vec());
+            uris.push(format!("http://h{}", tail).into_bytes());
+        }
+        uris.retain(|u| !u.is_empty());
+        for a in &routes6 {
+            for b in &routes6 {
+                table_case_paths(rec, SERVER_IDS[0], "/a", &pp, &[*a, *b], &uris, None);
+            }
+        }
+    }
     // many routes under a long prefix: neither the number of routes nor the length of the prefix is bounded
     {
         let many: Vec<String> = (0..260usize).map(|k| format!("/r{}", k)).collect();
